@@ -542,6 +542,11 @@ func generateReceiveMethod(file *jen.File, itf *idl.InterfaceType) error {
 		jen.Id("msg").Op("*").Qual("github.com/lugu/qiloop/bus/net", "Message"),
 		jen.Id("from").Qual("github.com/lugu/qiloop/bus", "Channel"),
 	).Params(jen.Error()).Block(
+		jen.Comment("only call and post messages run a method"),
+		jen.If(
+			jen.Id("msg.Header.Type").Op("!=").Qual("github.com/lugu/qiloop/bus/net", "Call").Op("&&").
+				Id("msg.Header.Type").Op("!=").Qual("github.com/lugu/qiloop/bus/net", "Post"),
+		).Block(jen.Return(jen.Nil())),
 		prelude,
 		jen.Switch(jen.Id("msg.Header.Action")).Block(
 			writing...,
